@@ -601,6 +601,27 @@ class CallMixin:
             cnt = self.max_counter = getattr(self, "max_counter", -1) + 1
             st.env[f"MAXARG{cnt}"] = V(INT, p)
             return res
+        if len(args) == 1 and "key" not in kw:
+            # max(xs) / min(xs) over a sequence of numbers: assumed contract -- bounds every element, attained
+            self.externals_used.add("max/min over a sequence")
+            src = args[0]
+            if not is_list(src.kind):
+                src = self.view_to_list(self.iter_view(src, st, node), st)
+            ek = self.elem_kind(src)
+            if ek not in (INT, REAL):
+                raise Unsupported("min/max over non-numeric sequence", node)
+            n = self.llen(st, src)
+            self.oblige(st, "safe", "minmax-nonempty", n > 0, node, exc="ValueError")
+            A = self.larr(st, src)
+            p = fresh("argext", I)
+            i = z3.Int("mm_i")
+            m = A[p]
+            st.assume(z3.And(0 <= p, p < n))
+            st.assume(z3.ForAll([i], z3.Implies(z3.And(0 <= i, i < n), (m >= A[i]) if is_max else (m <= A[i]))))
+            cnt = self.mm_counter = getattr(self, "mm_counter", -1) + 1
+            st.env[f"EXTARG{cnt}"] = V(INT, p)
+            st.env[f"EXTSEQ{cnt}"] = src
+            return V(ek, m)
         if "key" in kw or len(args) == 1:
             c = self.reg.contracts.get("max" if is_max else "min")
             if c is None:
